@@ -141,6 +141,9 @@ def run(ctx):
     ctx.rule("R09.i", "rx cache model: rx._resolve, the rx._obj property, _invalidate_current and _invalidate_obj interpreted abstractly on a three-node expression (root, op1, op2) under every "
                       "history of up to 3 (thorough: 4) steps of read leaf / read middle node / set the input to A, B or a bad value / set an operation argument to P, Q or a bad value, followed by a read: the read gives op2(op1(current input, current argument)), "
                       "raises for the bad input, and recovers", floor=1)
+    ctx.rule("R09.t", "pipe / map call fn(value, *args, **kwargs): no named keyword parameter of the internal method the caller's `**kwargs` are forwarded to can capture a user keyword "
+                      "(signature comparison at every forwarding call of param.reactive)", floor=2)
+    ctx.rule("R09.x", "identity helpers see the argument itself: resolve_value, interpreted on a list / tuple / dict without references, returns the very object (is_ / is_not compare identities)", floor=1)
     ctx.rule("R09.s", "a watch callback sees the current value: the callbacks of the function form of depends (under .rx.watch and bind(..., watch=True)) read their dependencies with "
                       "getattr(dep.owner, dep.name) when they run and never take a value from the announcing event", floor=1)
     ctx.rule("R09.o", "rx evaluation-order model: rx._resolve evaluates the pipeline before the arguments of the operation -- with both invalid, reading the node raises the exception the plain "
@@ -375,6 +378,8 @@ def run(ctx):
     rx_model.value_setter_model(ctx, "R09.v")
     rx_model.evaluation_order_model(ctx, "R09.o")
     callbacks_read_current_values(ctx, "R09.s")
+    user_keywords_reach_the_function(ctx, "R09.t")
+    reference_free_arguments_keep_their_identity(ctx, "R09.x")
     from checks.shared import full_groupby_model
     full_groupby_model(ctx, "R09.q")
     from checks.shared import rx_attribute_resolution_is_per_object
@@ -404,3 +409,93 @@ def callbacks_read_current_values(ctx, rule):
                  key=f.qualname + "::value-from-event", input="p.param.level.rx.watch(cb) next to a watcher that clamps level: cb(20) while p.level == 10")
     else:
         ctx.ok(rule, f, getters[0], "the function-form callbacks read every dependency from its owner when they run (%d reads), never from the event" % len(getters))
+
+
+def user_keywords_reach_the_function(ctx, rule):
+    """`.rx.pipe(fn, *args, **kwargs)` and `.rx.map(fn, *args, **kwargs)` promise fn(value, *args, **kwargs).  They forward the
+    caller's keywords with `**kwargs` to an internal method; every NAMED keyword parameter of that method (keyword-only, or
+    positional with a default that the call does not fill) captures a user keyword of the same name instead of handing it
+    to fn.  For each such forwarding call in param.reactive the captured names are reported."""
+    n, findings, examined = 0, [], []
+    for g in ctx.repo.all_funcs("param.reactive"):
+        kw = g.node.args.kwarg.arg if g.node.args.kwarg else None
+        if kw is None or g.name.startswith("_"):
+            continue
+        if g.cls is not None and g.cls.name == "reactive_ops":
+            examined.append(g)
+        for c in ast.walk(g.node):
+            if not (isinstance(c, ast.Call) and isinstance(c.func, ast.Attribute) and any(k.arg is None and isinstance(k.value, ast.Name) and k.value.id == kw for k in c.keywords)):
+                continue
+            callee = None
+            for cq in ("param.reactive.rx", "param.reactive.reactive_ops"):
+                callee = callee or ctx.hier.resolve(cq, c.func.attr)
+            if callee is None or not c.func.attr.startswith("_"):
+                continue            # forwarded to the user's own function or to a public API with the same contract
+            n += 1
+            a = callee.node.args
+            captured = [x.arg for x in a.kwonlyargs]
+            pos = [x.arg for x in a.posonlyargs + a.args][1:]
+            n_given = len([x for x in c.args if not isinstance(x, ast.Starred)])
+            if not any(isinstance(x, ast.Starred) for x in c.args):
+                captured += pos[n_given:]
+            if captured:
+                findings.append((g, c, callee, captured))
+            else:
+                ctx.ok(rule, g, c, "the caller's keywords are forwarded to %s, which has no named keyword parameter to capture them" % callee.name)
+    ctx.require(len(examined) >= 2, "fewer than 2 public methods of reactive_ops take **kwargs (%d): pipe and map are expected" % len(examined))
+    if not findings:
+        for g in examined:
+            if not any(True for _ in []):
+                ctx.ok(rule, g, g.node, "reactive_ops.%s does not hand the caller's keywords to an internal method with named keyword parameters" % g.name)
+    for g, c, callee, captured in findings:
+        ctx.fail(rule, g, c, "%s forwards the caller's keywords with `**%s` to %s, whose named keyword parameter(s) %s capture a user keyword of the same name: `%s(fn, %s=...)` does not "
+                             "call fn(value, %s=...) -- plain Python does" % (g.qualname.split(".", 2)[-1], g.node.args.kwarg.arg, callee.name, captured, g.name, captured[0], captured[0]),
+                 key="%s::keyword-captured::%s" % (g.qualname, ",".join(captured)), input="rx([3, 1, 2]).rx.pipe(sorted, reverse=True).rx.value -> IndexError instead of [3, 2, 1]")
+
+
+def reference_free_arguments_keep_their_identity(ctx, rule):
+    """The arguments of an operation are passed through `resolve_value` when the expression is evaluated.  For `.rx.is_(x)` /
+    `.rx.is_not(x)` the ARGUMENT'S IDENTITY is the point: `resolve_value`, interpreted on a list / tuple / dict that holds
+    no reference at all, must hand back the very object it was given (a rebuilt container is equal, never identical)."""
+    from engine.absint import Interp, Obj, Unsupported
+    f = ctx.repo.func("param.parameterized.resolve_value")
+    x, y = Obj("plain_element_x"), Obj("plain_element_y")
+    problems, n = [], 0
+    for kind, value in (("list", [x, y]), ("tuple", (x, y)), ("dict", {"k": x})):
+        def hook(fn, args, kwargs):
+            if fn == "transform_reference" and len(args) == 1:
+                return args[0]
+            if fn == "hasattr":
+                return False
+            if fn in ("inspect.isgeneratorfunction", "iscoroutinefunction"):
+                return False
+            if fn == "isinstance" and len(args) == 2:
+                spec = args[1] if isinstance(args[1], tuple) else (args[1],)
+                names = {"<type list>": list, "<type tuple>": tuple, "<type dict>": dict}
+                if all(s_ in names or s_ in ("<type slice>", "Parameter") for s_ in spec):
+                    return any(s_ in names and isinstance(args[0], names[s_]) for s_ in spec)
+                return False
+            if fn == "type" and len(args) == 1 and isinstance(args[0], (list, tuple, dict)):
+                return "<type %s>" % type(args[0]).__name__
+            if fn in ("<type list>", "<type tuple>", "<type dict>") and len(args) == 1:
+                v = hook.it.force(args[0])
+                return {"<type list>": list, "<type tuple>": tuple, "<type dict>": dict}[fn](v) if isinstance(v, (list, tuple)) else NotImplemented
+            return NotImplemented
+        it = Interp(ctx.hier, call_hook=hook, inline_module_functions=True, globals={"Parameter": "Parameter", "slice": "<type slice>"})
+        hook.it = it
+        try:
+            outs = it.run_all(f, {"value": value, "recursive": True})
+        except Unsupported as e:
+            raise AnalysisError("%s: absint cannot interpret resolve_value on a %s: %s" % (rule, kind, e))
+        if len(outs) != 1 or outs[0].imprecise or outs[0].kind != "return":
+            raise AnalysisError("%s: resolve_value is not interpretable precisely on a %s (%s)" % (rule, kind, outs[0].notes[:2] if outs else "no outcome"))
+        n += 1
+        if outs[0].value is not value:
+            problems.append(kind)
+    ctx.abstract_cases += n
+    if problems:
+        ctx.fail(rule, f, f.node, "resolve_value rebuilds a %s that holds no reference: the operand an expression is evaluated with is equal to the argument given, not identical -- "
+                                  "`e.rx.is_(lst)` is False and `e.rx.is_not(lst)` True for the very list the expression wraps (plain Python: `lst is lst`)" % " / ".join(problems),
+                 key=f.qualname + "::rebuilds-reference-free-containers", input="lst = [1, 2]; rx(lst).rx.is_(lst).rx.value -> False")
+    else:
+        ctx.ok(rule, f, f.node, "resolve_value hands back reference-free containers as the objects they are (%d kinds)" % n)
